@@ -53,6 +53,58 @@ def default_parameters(case):
     return fails
 
 
+def reference_in_fresh_process(case):
+    """trial sequence of a solver running alone in a fresh interpreter: immune to anything other solvers leave behind in this process"""
+    import json
+    code = ("import sys, json, warnings; warnings.simplefilter('ignore'); sys.path.insert(0, '/verif')\nfrom vlib import oracles as O, harness as H\n"
+            "p, s = O.build(%r)\nsol, out = H.run_script(s, [('solve',)])\nprint('REF=' + json.dumps([[list(y), v] for y, v in p.log]))" % (case,))
+    rc, out, dt = H.run_isolated(code, timeout=120)
+    line = [l for l in out.splitlines() if l.startswith('REF=')]
+    return json.loads(line[0][4:]) if line else None
+
+
+def against_fresh_reference(case):
+    """case: {'disturbers': [cases run first in this process], 'victim': case}: the victim behaves as in a fresh interpreter"""
+    import warnings
+    ref = reference_in_fresh_process(case['victim'])
+    if ref is None:
+        return ['the victim did not finish alone in a fresh interpreter']
+    for c in case['disturbers']:
+        p, s = O.build(c)
+        try:
+            H.run_script(s, c.get('script') and [tuple(o) for o in c['script']] or [('solve',)])
+        except Exception:  # noqa  (a disturber may fail: its caller handles that)
+            pass
+    with warnings.catch_warnings():
+        warnings.simplefilter('ignore')
+        p, s = O.build(case['victim'])
+        sol, out = H.run_script(s, [('solve',)])
+    got = [[list(y), v] for y, v in p.log]
+    if got != ref:
+        k = next((i for i in range(min(len(got), len(ref))) if got[i] != ref[i]), min(len(got), len(ref)))
+        return ['a solver running after %d other solver(s) in the same process makes %d trials (alone, in a fresh interpreter: %d); first difference at trial %d: %r vs %r'
+                % (len(case['disturbers']), len(got), len(ref), k + 1, got[k] if k < len(got) else None, ref[k] if k < len(ref) else None)]
+    return []
+
+
+def fresh_reference_cases(rng, thorough):
+    out = []
+    # same dimension, density and lower corner, different upper corner (both orders)
+    for _ in range(3 if thorough else 1):
+        n = rng.choice([2, 3])
+        lo = [float(rng.choice([0, -1, 2]))] * n
+        a = {'n': n, 'lo': lo, 'hi': [v + 1.0 for v in lo], 'r': 2.5, 'eps': 0.05, 'iters': 30, 'density': rng.choice([None, 6]), 'objective': {'kind': 'quad', 'c': [v + 0.3 for v in lo]}}
+        b = dict(a, hi=[lo[0] + 4.0] + [v + 2.0 for v in lo[1:]])
+        out += [{'disturbers': [a], 'victim': b}, {'disturbers': [b], 'victim': a}]
+    # a neighbour whose local refinement fails (its caller handles the error), then a solver whose objective relies on numpy's default
+    # floating-point error handling (warn, do not raise)
+    fail = {'n': 1, 'lo': [-1.0], 'hi': [1.0], 'r': 2.5, 'eps': 0.01, 'iters': 200, 'density': None, 'refine': True, 'objective': {'kind': 'quad', 'c': [0.3]},
+            'fail_region': [0, 0.3 - 2e-4, 0.3 + 2e-4], 'script': [['solve']]}
+    for obj, lo, hi in (({'kind': 'expcap', 'w': 900.0}, [-1.0], [1.0]), ({'kind': 'invcap'}, [-1.0], [1.0])):
+        out.append({'disturbers': [fail], 'victim': {'n': 1, 'lo': lo, 'hi': hi, 'r': 2.5, 'eps': 0.01, 'iters': 150, 'density': None, 'objective': obj}})
+    return out
+
+
 def run(chk):
     rng = H.rng_for(chk.seed, 'C12')
     thorough = chk.tier == 'thorough'
@@ -61,6 +113,11 @@ def run(chk):
                         'the allocation policy is read from the source on every run', 'sharing through user-supplied objects (the same Problem or SolverParameters '
                         'instance given to two solvers) is outside the property']
     found = 0
+    for case in fresh_reference_cases(rng, thorough):
+        fails = O.guarded(against_fresh_reference, case)
+        chk.evaluations += 1
+        if fails:
+            found += chk.violation('not-isolated', fails[0], {'kind': 'fresh-reference', 'case': case})
     # all interleavings of two solvers with up to 4 steps each
     pairs = 3 if thorough else 1
     for _ in range(pairs):
@@ -106,6 +163,8 @@ def run(chk):
 
 
 def replay(chk, rp):
+    if rp.get('kind') == 'fresh-reference':
+        fails = O.guarded(against_fresh_reference, rp['case']); print(fails); return not fails
     fails = O.guarded(O.c12, rp['case']) or O.guarded(sequential, rp['case'])
     print(fails)
     return not fails
